@@ -12,7 +12,10 @@ import (
 	"testing/synctest"
 	"time"
 
+	"github.com/platinummonkey/go-concurrency-limits/core"
+	"github.com/platinummonkey/go-concurrency-limits/limiter"
 	"github.com/platinummonkey/go-concurrency-limits/patterns/pool"
+	"github.com/platinummonkey/go-concurrency-limits/strategy"
 )
 
 // TestPoolLongRun keeps fixed pools busy for long enough that their sample windows close (more completions than the
@@ -85,6 +88,177 @@ func TestPoolLongRun(t *testing.T) {
 				}
 				k++
 			}
+		}
+	}
+	// generic pools over a DefaultLimiter with the SIMPLE strategy (the library's own example): with the random ordering every
+	// release wakes all waiters, who then attempt at once - in real time, on all processors
+	for rep := 0; rep < envInt("VERIF_N", 2); rep++ {
+		for oi, ord := range orderings {
+			for _, lim := range []int{1, 2} {
+				var mu sync.Mutex
+				var events []J
+				var seq, ids int64
+				begin := func(kind string) func(ok bool) {
+					id := atomic.AddInt64(&ids, 1)
+					mu.Lock()
+					events = append(events, J{"t": "b", "id": id, "kind": kind, "v": 0, "ok": true, "n": -1, "seq": atomic.AddInt64(&seq, 1)})
+					mu.Unlock()
+					return func(ok bool) {
+						mu.Lock()
+						events = append(events, J{"t": "e", "id": id, "kind": "", "v": 0, "ok": ok, "n": -1, "seq": atomic.AddInt64(&seq, 1)})
+						mu.Unlock()
+					}
+				}
+				dl, _, err := newDelegate(lim, false)
+				if err != nil {
+					t.Fatal(err)
+				}
+				p, err := pool.NewPool(dl, ord, 16, time.Second, nil, nil)
+				if err != nil {
+					t.Fatal(err)
+				}
+				var wg sync.WaitGroup
+				start := make(chan struct{})
+				for g := 0; g < lim+3; g++ {
+					wg.Add(1)
+					go func(g int) {
+						defer wg.Done()
+						<-start
+						for i := 0; i < 40; i++ {
+							end := begin("acq")
+							l, ok := p.Acquire(context.Background())
+							end(ok && l != nil)
+							if !ok || l == nil {
+								continue
+							}
+							end = begin("rel")
+							l.OnIgnore()
+							end(true)
+						}
+					}(g)
+				}
+				close(start)
+				wg.Wait()
+				w.write(J{"t": "reset", "trace": k, "kind": "genericpool-simple-" + []string{"fifo", "lifo", "random"}[oi], "limit": lim, "id": 0, "v": 0, "ok": true, "n": -1})
+				for _, e := range events {
+					e["trace"] = k
+					w.write(e)
+				}
+				k++
+			}
+		}
+	}
+	// the attack schedule of the weakened DefaultLimiterConc model, through the pools: caller 1 parked between the strategy's
+	// check and its increment, caller 2 started meanwhile (bounded wait: on this tree it waits for the limiter mutex), then
+	// both let go, caller 1 completes and whoever still waits is served. The pool must stay a counting gate.
+	type atk struct {
+		kind, point string
+		build       func(lim int) (interface {
+			Acquire(context.Context) (core.Listener, bool)
+		}, error)
+	}
+	var atks []atk
+	for oi, ord := range orderings {
+		ord, on := ord, []string{"fifo", "lifo", "random"}[oi]
+		atks = append(atks, atk{"genericpool-simple-" + on + "/attack", "simple.afterCheck", func(lim int) (interface {
+			Acquire(context.Context) (core.Listener, bool)
+		}, error) {
+			dl, _, err := newDelegate(lim, false)
+			if err != nil {
+				return nil, err
+			}
+			return pool.NewPool(dl, ord, 16, 2*time.Second, nil, nil)
+		}})
+		atks = append(atks, atk{"fixedpool-" + on + "/attack", "precise.afterCheck", func(lim int) (interface {
+			Acquire(context.Context) (core.Listener, bool)
+		}, error) {
+			return pool.NewFixedPool(fmt.Sprintf("attack-%s-%d", on, k), ord, lim, -1, -1, -1, -1, 16, 2*time.Second, nil, nil)
+		}})
+	}
+	for _, a := range atks {
+		for _, lim := range []int{1, 2} {
+			p, err := a.build(lim)
+			if err != nil {
+				t.Fatal(err)
+			}
+			var mu sync.Mutex
+			var events []J
+			var seq, ids int64
+			begin := func(kind string) func(ok bool) {
+				id := atomic.AddInt64(&ids, 1)
+				mu.Lock()
+				events = append(events, J{"t": "b", "id": id, "kind": kind, "v": 0, "ok": true, "n": -1, "seq": atomic.AddInt64(&seq, 1)})
+				mu.Unlock()
+				return func(ok bool) {
+					mu.Lock()
+					events = append(events, J{"t": "e", "id": id, "kind": "", "v": 0, "ok": ok, "n": -1, "seq": atomic.AddInt64(&seq, 1)})
+					mu.Unlock()
+				}
+			}
+			var armed int32 = 0
+			parked, resume := make(chan struct{}), make(chan struct{})
+			strategy.VerifPoint = func(point string) {
+				if point == a.point && atomic.CompareAndSwapInt32(&armed, 1, 2) {
+					close(parked)
+					<-resume
+				}
+			}
+			limiter.VerifPoint = nil
+			var held []core.Listener
+			for i := 0; i < lim-1; i++ { // holders fill all but one token
+				end := begin("acq")
+				l, ok := p.Acquire(context.Background())
+				end(ok && l != nil)
+				if ok && l != nil {
+					held = append(held, l)
+				}
+			}
+			got := make(chan core.Listener, 2)
+			call := func() {
+				end := begin("acq")
+				l, ok := p.Acquire(context.Background())
+				end(ok && l != nil)
+				if !ok {
+					l = nil
+				}
+				got <- l
+			}
+			atomic.StoreInt32(&armed, 1)
+			go call()
+			select {
+			case <-parked:
+			case <-time.After(time.Second):
+				t.Fatalf("%s: the first caller did not reach %s", a.kind, a.point)
+			}
+			go call()
+			time.Sleep(30 * time.Millisecond) // the second caller gets in now if anything lets it
+			close(resume)
+			// complete whatever is granted, one after the other, until both callers have returned
+			for n := 0; n < 2; n++ {
+				select {
+				case l := <-got:
+					if l != nil {
+						time.Sleep(2 * time.Millisecond)
+						end := begin("rel")
+						l.OnIgnore()
+						end(true)
+					}
+				case <-time.After(5 * time.Second):
+					t.Fatalf("%s: a caller never returned", a.kind)
+				}
+			}
+			for _, l := range held {
+				end := begin("rel")
+				l.OnIgnore()
+				end(true)
+			}
+			strategy.VerifPoint = nil
+			w.write(J{"t": "reset", "trace": k, "kind": a.kind, "limit": lim, "id": 0, "v": 0, "ok": true, "n": -1})
+			for _, e := range events {
+				e["trace"] = k
+				w.write(e)
+			}
+			k++
 		}
 	}
 	writeJSON(t, filepath.Join(outDir(t), "pool_longrun.json"), J{"histories": k})
